@@ -207,7 +207,7 @@ def runProgram (line : String) : List String :=
               | some d => { tn with buf := addAt tn.buf d.win.buf tags }
               | none => tn
             else tn
-          | none => tn
+          | none => if ps'.ds.size > ps.ds.size && !tags.isEmpty then { tn with obj := addAt tn.obj ps.ds.size tags } else tn
         -- writes through a tainted object taint its buffer; copies from a tainted source taint the destination
         -- an operation taints every object it names with the tags it raises
         let tn := if tags.isEmpty then tn else
